@@ -58,6 +58,13 @@ R_SCOPES = {
         ],
         "presets": [(8, 0, 0), (8, 3, 0), (16, 4, 0), (4000, 150, 32)],
     },
+    "r_dtpressure": {
+        # one datatype per statement: five distinct ones are needed to evict twice in a row
+        "triples": [(AX, AP, L("x", None, f"http://d/{i}")) for i in range(6)],
+        "presets": [(8, 1, 3), (8, 1, 3), (8, 1, 3), (8, 1, 3)],
+        "maxlen": 5,
+        "restricted": True,
+    },
 }
 GNAMES = [DEFAULT, I("http://a/x"), I("http://a/x"), B("x"), DEFAULT, I("http://b#x")]
 FRAME_SIZES = (1, 250)
@@ -84,12 +91,18 @@ def assert_fixpoints() -> None:
 
 def jobs(maxlen: int, parts: int = 2, entry_len: int = 2) -> list:
     out = []
-    n = AL.n_sequences(6, maxlen)
-    for scope in R_SCOPES:
+    for scope, sc in R_SCOPES.items():
+        L = max(maxlen, sc.get("maxlen", 0))
+        n = AL.n_sequences(6, L)
+        if sc.get("restricted"):
+            for cls in ("triple", "graph"):
+                for lo, hi in pool.split_range(n, parts * 4):
+                    out.append(("R", "C", scope, cls, 0, L, lo, hi))
+            continue
         for cls in DR.CLASSES:
             for pi in range(4):
                 for lo, hi in pool.split_range(n, parts):
-                    out.append(("R", "A", scope, cls, pi, maxlen, lo, hi))
+                    out.append(("R", "A", scope, cls, pi, L, lo, hi))
             out.append(("R", "B", scope, cls, 0, entry_len, 0, AL.n_sequences(6, entry_len)))
     return out
 
@@ -109,7 +122,9 @@ def expected_cases(js: list) -> int:
     tot = 0
     for _, kind, scope, cls, pi, L, lo, hi in js:
         if kind == "A":
-            tot += (hi - lo) * len(FRAME_SIZES) * len(MODES)
+            tot += (hi - lo) * (len(FRAME_SIZES) * len(MODES) + (1 if cls != "triple" else 0))
+        elif kind == "C":
+            tot += hi - lo
         else:
             tot += (hi - lo) * len(entry_configs(cls))
     return tot
@@ -132,6 +147,11 @@ def run_job(job, judge) -> dict:
         if kind == "A":
             configs = [(pi, fs, lk, dl, "graph_serialize_stream")
                        for fs in FRAME_SIZES for lk, dl in MODES]
+            if cls != "triple":
+                # the same dataset with two registered but empty named graphs
+                configs.append((pi, 250, "flat", True, "graph_serialize_stream+empty"))
+        elif kind == "C":
+            configs = [(pi, 250, "flat", True, "graph_serialize_stream")]
         else:
             configs = entry_configs(cls)
         for cpi, fs, lk, dl, writer in configs:
